@@ -1,6 +1,6 @@
 #!/bin/bash
 # tools_runall.sh <quick|thorough> [ids...]  -- run checks sequentially on the current tree, log exit codes
-cd /verif
+cd "$(dirname "$0")"
 tier=${1:-quick}; shift
 ids=${@:-C01 C02 C03 C04 C05 C06 C07 C08 C09 C10 C11 C12 C13 C14 C15 C16 C17 C18 C19}
 for id in $ids; do
